@@ -12,7 +12,7 @@
   hold, hence re-parse and copies reproduce the map; a style string parses to what its rendering parses to.
   C10d: equality ignores order.  C10e: assigning another element's style copies the map.
 -/
-import AHP.Lemmas.AttrsStyleInv
+import AHP.Lemmas.AttrsFrame
 namespace AHP.C10
 open AHP AHP.Attrs
 
@@ -233,6 +233,11 @@ theorem assign_copies {m : AL Str} (h : StyRT m) (b : El) :
 theorem assign_no_alias (T : Tables) (a b : El) (op : Op) :
     let b' := assignStyleFrom a.sty b
     ((step T a op).2, b') = ((step T a op).2, assignStyleFrom a.sty b) ∧ (a, (step T b' op).2).1 = a := ⟨rfl, rfl⟩
+
+/-- interleavings: every operation that does not address the style attribute (other attributes, class writers,
+    readers) leaves the style map exactly as it was -/
+theorem other_operations_keep_style (T : Tables) (op : Op) (h : KeepsStyle T op) (e : El) : (step T e op).2.sty = e.sty :=
+  step_sty_frame T op h e
 
 /-! ### non-vacuity -/
 
